@@ -1,6 +1,7 @@
 package checks
 
 import (
+	"os"
 	"context"
 	"fmt"
 	"math/rand"
@@ -85,8 +86,19 @@ func (m *c03Model) flush(now time.Time) error {
 		if !s.active {
 			continue
 		}
-		// from the moment of the change, nothing back-dated
-		m.refs[key] = &refJC{sched: s, cursor: now, uid: string(p.obj.UID), desc: describeSched(p.obj)}
+		// from the moment of the change, nothing back-dated. A JobConfig the controller sees for the first time
+		// starts the way it does at a controller start (C04's bound): when the first copy it sees already records a
+		// last schedule time - possible only when the watch skipped its early versions - from there, never from
+		// before its last schedule change; otherwise from now.
+		cursor := now
+		if p.kind == "add" {
+			down := 300 * time.Second
+			if m.g.MaxDowntime > 0 {
+				down = time.Duration(m.g.MaxDowntime) * time.Second
+			}
+			cursor, _ = c04Bound(p.obj, now, down)
+		}
+		m.refs[key] = &refJC{sched: s, cursor: cursor, uid: string(p.obj.UID), desc: describeSched(p.obj)}
 	}
 	m.pending = nil
 	return nil
@@ -324,6 +336,32 @@ func c03One(i int, r *rand.Rand, res *core.Result) {
 				res.Count("writes_rejected_by_admission", 1)
 			}
 		}
+		// the watch broke while two or more changes were outstanding: the cache is replaced by a fresh list
+		// (skipped versions are never seen; objects that vanished arrive as tombstones with the cache's last copy)
+		if h.ctx.Inf.JC.Behind(h.api) >= 2 && r.Intn(4) == 0 {
+			plan := h.ctx.Inf.JC.PlanRelist(h.api)
+			if os.Getenv("VERIF_DEBUG") != "" {
+				for _, ev := range plan {
+					jc := ev.Object.(*execution.JobConfig)
+					ou := ""
+					if ev.Old != nil {
+						ou = string(ev.Old.(*execution.JobConfig).UID)
+					}
+					fmt.Fprintf(os.Stderr, "DEBUG step %d %v relist %s %s uid %s (old uid %s) %s\n", step, h.clk.T.UTC().Format("15:04:05.000"), ev.Type, jc.Name, jc.UID, ou, describeSched(jc))
+				}
+			}
+			_, tomb := h.ctx.Inf.JC.Relist(h.api)
+			for _, ev := range plan {
+				if m.deliver(ev) {
+					changes++
+				}
+			}
+			classes["relist"] = true
+			if tomb > 0 {
+				classes["relist-tombstone"] = true
+			}
+			abs.WriteString("X")
+		}
 		// deliveries: everything, a prefix, or nothing (lag)
 		pend := 0
 		for s := h.ctx.Inf.JC.NextSeq(h.api); s >= 0; s = h.ctx.Inf.JC.NextSeq(h.api) {
@@ -334,6 +372,10 @@ func c03One(i int, r *rand.Rand, res *core.Result) {
 				break
 			}
 			ev := h.api.EventAt(s)
+			if os.Getenv("VERIF_DEBUG") != "" {
+				jc := ev.Object.(*execution.JobConfig)
+				fmt.Fprintf(os.Stderr, "DEBUG step %d %v deliver %s %s uid %s %s\n", step, h.clk.T.UTC().Format("15:04:05.000"), ev.Type, jc.Name, jc.UID, describeSched(jc))
+			}
 			h.ctx.Inf.JC.DeliverOne(h.api)
 			if m.deliver(ev) {
 				changes++
@@ -361,6 +403,9 @@ func c03One(i int, r *rand.Rand, res *core.Result) {
 			return
 		}
 		got, _, tickOK := h.tick(0)
+		if os.Getenv("VERIF_DEBUG") != "" {
+			fmt.Fprintf(os.Stderr, "DEBUG step %d %v tick got %v\n", step, h.clk.T.UTC().Format("15:04:05.000"), got)
+		}
 		if !tickOK {
 			viol("work-does-not-terminate", "CronWorker.Work() did not return at %v (more than %d clock readings in one tick)", h.clk.T.UTC(), h.clk.Reads-1)
 			return
